@@ -71,6 +71,8 @@ def split_rules(ctx: Ctx, include: set, explain: bool = False) -> None:
         _piece(ctx, fi)
     if "FLOW" in include:
         _flow(ctx, fi)
+    if "TAIL" in include:
+        _tail(ctx, fi)
 
 
 def _place(ctx, fi):
@@ -468,6 +470,79 @@ def _piece(ctx, fi):
             and isinstance(getattr(defs[0], "_parent", None), ast.For)
         ctx.check(okf, "PIECE", f"{FN}: `{short(s)}` continues with a piece created empty for this capacity", function=FN,
                   construct="the next piece is not a fresh empty sequence created per capacity", message=f"{[short(d) for d in defs]}", file=fi.file, node=s)
+
+
+_ADDERS = ("add_message", "append", "extend", "insert", "_add_message_unsorted")
+
+
+class _Tail(AbsInt):
+    """Inside the end-of-input exit: may the current piece already be the fresh one when something is added to it?"""
+
+    def __init__(self, cur: str, fresh: set):
+        super().__init__()
+        self.cur, self.fresh = cur, fresh
+        self.bad: list[ast.AST] = []
+
+    def join(self, a, b):
+        return a or b
+
+    def stmt(self, s, st):
+        for c in ast.walk(s):
+            if isinstance(c, ast.Call):
+                recv, name = call_method(c)
+                if recv is None or name not in _ADDERS:
+                    continue
+                root = src(recv).split(".")[0]
+                if (root in self.fresh or (root == self.cur and st)) and c not in self.bad:
+                    self.bad.append(c)
+        if isinstance(s, ast.Assign) and any(isinstance(t, ast.Name) and t.id == self.cur for t in s.targets):
+            st = isinstance(s.value, ast.Name) and s.value.id in self.fresh
+        return st
+
+
+def _tail(ctx, fi):
+    """TAIL (a rule of the bar splitter, which asks `did this track leave a remainder?` by counting the pieces): when the input
+    runs out inside a capacity the piece that follows stays empty -- nothing is put into the fresh piece on the end-of-input
+    exit, and after the rounds the last piece only receives what is left of the work list.  Otherwise a track that ends
+    exactly on a bar line comes back with a second, zero-length piece and every track gets one bar too many."""
+    qs, result, cur, loop, popped = _roles(fi)
+    if cur is None or loop is None or popped is None or result is None:
+        ctx.undetermined("TAIL", f"{FN}: end-of-input exit", "roles not recognised: not judged")
+        return
+    wm = src(call_method(popped.value)[0])
+    guards = [s_ for s_ in loop.body if isinstance(s_, ast.If) and s_.lineno < popped.lineno and any(isinstance(x, ast.Break) for x in ast.walk(s_))
+              and _nonempty(s_.test, wm) is False]
+    fresh = {s_.value.id for s_ in ast.walk(fi.node) if isinstance(s_, ast.Assign) and isinstance(s_.targets[0], ast.Name) and s_.targets[0].id == cur
+             and isinstance(s_.value, ast.Name)}
+    if len(guards) != 1 or not fresh:
+        ctx.undetermined("TAIL", f"{FN}: end-of-input exit", "the `work list empty` exit / the fresh piece was not recognised: not judged")
+        return
+    it = _Tail(cur, fresh)
+    it.block(guards[0].body, False)
+    ctx.check(not it.bad, "TAIL", f"{FN}: when the input runs out the piece that follows stays empty", function=FN,
+              construct="split puts events into the fresh piece when the input is exhausted",
+              message=f"`{short(it.bad[0], 80) if it.bad else ''}` can fill the piece created for the next capacity although no time is left: a track ending "
+                      f"exactly on a bar line comes back with a second, zero-length piece, the bar splitter takes it for more music and every track gets one bar too many",
+              file=fi.file, node=it.bad[0] if it.bad else guards[0])
+    # after the rounds: the last piece only receives the rest of the work list (empty when the input ran out)
+    outer = next((a for a in ancestors(loop) if isinstance(a, ast.For)), loop)
+    after = [s_ for s_ in fi.node.body if s_.lineno > outer.end_lineno]
+    late = []
+    for s_ in after:
+        for c in ast.walk(s_):
+            if isinstance(c, ast.Call):
+                recv, name = call_method(c)
+                if recv is None or name not in _ADDERS:
+                    continue
+                root = src(recv).split(".")[0]
+                if root == cur or root in fresh:
+                    names = {n.id for a in c.args for n in ast.walk(a) if isinstance(n, ast.Name)}
+                    if wm.split(".")[0] not in names:
+                        late.append(c)
+    ctx.check(not late, "TAIL", f"{FN}: after the rounds the last piece only receives the rest of the work list", function=FN,
+              construct="split fills the last piece from something other than the rest of the work list",
+              message=f"`{short(late[0], 80) if late else ''}`: with the input exhausted the last piece is the fresh one and must stay empty",
+              file=fi.file, node=late[0] if late else fi.node)
 
 
 def _nonempty(t: ast.AST, what: str):
